@@ -202,6 +202,28 @@ func (c *Chain) onEpochBoundary(ended common.Epoch) {
 		}
 		c.lastNextSync = r
 	}
+	// active-set change exactly at the epoch the next sync committee is drawn from
+	if cur == ended+1 {
+		f := sp.ALTAIR_FORK_EPOCH
+		count := func(e common.Epoch) int {
+			k := 0
+			for i := range flats {
+				if flats[i].ActivationEpoch == e || flats[i].ExitEpoch == e {
+					k++
+				}
+			}
+			return k
+		}
+		if cur%sp.EPOCHS_PER_SYNC_COMMITTEE_PERIOD == 0 && cur >= f+1 && count(cur) > 0 {
+			// computed by the transition that ended cur-1 (an altair+ state) from the active set of epoch cur
+			c.Stats.Inc("sync_period_boundaries_with_active_set_change")
+			c.Stats.Inc("sync_period_boundaries_with_active_set_change_" + c.forkAtEpoch(cur-1).String())
+		}
+		if cur == f && count(f+1) > 0 {
+			// upgrade_to_altair draws both committees from the active set of epoch fork+1
+			c.Stats.Inc("altair_upgrade_with_active_set_change")
+		}
+	}
 	c.proposerSensitivity(st, flats, ended, cur)
 	c.noteState(st)
 }
